@@ -24,6 +24,8 @@ pub struct MemOpts {
     pub cut_at: Option<(usize, CutKind)>,
     /// writes fail with this kind once `limit` bytes have been written in total
     pub write_fault: Option<(usize, ErrorKind)>,
+    /// the client's byte stream, replacing the rendered conversation (byte-level edits)
+    pub raw: Option<Arc<Vec<u8>>>,
 }
 
 #[derive(Clone, Copy, Debug, PartialEq, Eq, serde::Serialize, serde::Deserialize)]
@@ -77,7 +79,10 @@ pub fn run_mem(case: &ConvCase, opts: &MemOpts) -> Observation {
     let exp = expect(case);
     let heads: Vec<bool> = exp.msgs.iter().map(|m| m.head).collect();
     let rendered = render(&case.conv);
-    let bytes = Arc::new(rendered.with_nonce(b"00000000"));
+    let bytes = match &opts.raw {
+        Some(r) => r.clone(),
+        None => Arc::new(rendered.with_nonce(b"00000000")),
+    };
     let (client, conn) = rt::mem::pair();
     if let Some((limit, kind)) = opts.write_fault {
         client.set_write_fault(limit, kind);
